@@ -135,3 +135,41 @@ def judge(chk, pairs, what):
             what, o["medium"], o["chunk"], json.dumps(exp["exc"]), len(exp["ev"]),
             o.get("e") or (json.dumps(o["exc"]) + " after %d events" % len(o["ev"])))
         chk.fail(desc, {"scenario": {k: s[k] for k in s if k not in ("exp", "expdev")}, "expected": exp, "observed": o}, dev=dev)
+
+
+def validate_scope_states(chk, pairs, what):
+    """M-level conformance of CMsgPackReadObjectScope: the private cursor the harness projects after every public call on an object
+    scope (friend hook) is validated against spec/MsgPackScope.tla on the bytes of the document (Trace_MsgPackScope).
+    One trace per scope instance; identical traces (same bytes, same calls, same states - e.g. from different media) are judged once."""
+    traces = {}
+    example = {}
+    for s, o in pairs:
+        if "st" not in o or o.get("arch", "msgpack") != "msgpack":
+            continue
+        cur = {}
+        done = []
+        for r in o["st"]:
+            if r["op"] == "enter":
+                if r["s"] in cur:
+                    done.append(cur[r["s"]])
+                cur[r["s"]] = {"doc": s["doc"], "start": r["s"], "size": r["n"], "enter": {"i": r["i"], "ck": r["ck"], "p": r["p"]}, "recs": []}
+            elif r["s"] in cur:
+                cur[r["s"]]["recs"].append({"op": r["op"], "k": r["k"], "i": r["i"], "ck": r["ck"], "p": r["p"]})
+        for t in done + list(cur.values()):
+            key = json.dumps(t, sort_keys=True)
+            if key not in traces:
+                traces[key] = t
+                example[key] = (s, o)
+    if not traces:
+        raise vlib.MachineryError("%s: no scope states were recorded (friend hook not compiled in?)" % what)
+    keys = list(traces)
+    lines = [json.dumps(dict(traces[k], id="sc%d" % i)) for i, k in enumerate(keys)]
+    checked, bad = vlib.validate_traces("Trace_MsgPackScope", lines)
+    for b in bad:
+        k = keys[int(b["id"][2:])]
+        s, o = example[k]
+        chk.fail("%s: private cursor of the object scope deviates from the model: %s" % (what, b["why"]),
+                 {"scenario": {x: s[x] for x in ("doc", "root", "pol")}, "scope_trace": traces[k], "medium": o.get("medium"), "chunk": o.get("chunk")})
+    chk.cov["scope_state_traces"] = chk.cov.get("scope_state_traces", 0) + checked
+    chk.cov["scope_state_calls"] = chk.cov.get("scope_state_calls", 0) + sum(len(t["recs"]) for t in traces.values())
+    return checked
